@@ -237,6 +237,17 @@ def execute(sc, ctx):
             streams += 1
             if hi.name != name or hi.value != model.ref_digest(name, data):
                 ctx.violate("hash_file-digest-wrong", f"{name}:no-info", f"len={len(data)}")
+        # file_md5 with a progress callback attached (what hash_file does for very large files): the
+        # digests must not depend on how the callback path chunks its reads
+        from fsspec.callbacks import Callback as _Cb
+
+        from dvc_data.hashfile.hash import file_md5
+
+        for name in ("md5", "md5-dos2unix", "sha256"):
+            got = file_md5(fp, w.localfs, callback=_Cb(), name=name)
+            streams += 1
+            if got != model.ref_digest(name, data):
+                ctx.violate("hash_file-digest-wrong", f"{name}:file_md5-with-callback", f"len={len(data)}")
         info = dict(w.localfs.info(fp))
         info["md5"] = _hl.md5(data).hexdigest()  # noqa: S324
         _, hi = hash_file(fp, w.localfs, "md5-dos2unix", info=info)
